@@ -199,3 +199,44 @@ prop('C05',
      level_text=("Fault-injection sweeps plus structure-aware and raw-byte fuzzing with differential (fresh-object) and extent oracles under ASan/UBSan with watchdog; exploration."),
      technique="structure-aware + coverage-guided fuzzing (libFuzzer), rapidcheck mutation plans, exhaustive prefix/field-boundary sweeps, fresh-object differential oracle, ASan/UBSan",
      design_ref="DESIGN.md section 3, C05")
+
+prop('C03',
+     quick=dict(sweep=True, pbt=(5000, 700, 10), fuzz=(10000, 700, 4)),
+     thorough=dict(sweep=True, pbt=(200000, 1500, 11), fuzz=(500000, 1500, 4), stage_timeout=3400),
+     floor=dict(quick=5000, thorough=100000), alloc_cap_mb=64,
+     rule=("WAV sets decoded from a tape: 0..8 RIFF/WAVE files sharing a random WaveFormat, 'fmt ' chunk of 16 or 18 bytes, 'data' length from {0,1,2,3,7,64,100,4096,random<=4096 "
+           "(thorough 200000)} (odd lengths padded per RIFF when a chunk follows), 0..2 extra even-sized chunks with tags from {LIST,'cue ',fact,smpl,JUNK,abcd,DATA,'Fmt '} before "
+           "'fmt ', 0..1 between 'fmt ' and 'data', 0..2 after 'data'; RIFF size = file-8; base names 1..8 characters [A-Za-z0-9_] distinct ignoring case, extension .wav in four letter "
+           "cases, three directories, listed in a tape-chosen permutation. Oracle: the written CLM parsed by an independent strict decoder (32-byte version string, format, {0,0,0,0,1,0}, "
+           "count, zero-padded 8-byte names in case-insensitive order, offsets contiguous from 60+16n, EOF = last offset+length); ClmFile lists base names/data lengths, OpenStream "
+           "returns exactly the data bytes; ExtractFile/ExtractAllFiles output parsed by a strict WAV parser (RIFF size, one 18-byte fmt with the common format, one data chunk with "
+           "exactly the bytes, nothing after). Four modes in ten are negative: 9-character name, two names equal ignoring case, one file with a different format, non-RIFF/non-WAVE/"
+           "truncated/size-mismatched/fmt-less file - creation must throw and leave inputs untouched. Sweep: 8 chunk placements x fmt16/18 x 5 data lengths x 1..3 tracks; empty set; "
+           "name lengths 7..10. Non-trivial = >=2 tracks with a chunk before 'fmt ' or after 'data' somewhere, or any refusal case."),
+     sweep_what="all 8 combinations of extra-chunk placement x fmt size x data lengths {0,1,2,5,4096} x 1..3 tracks; name lengths 7..10; empty set",
+     assumptions=["extra chunks are even-sized (the statement's domain)", "base names are ASCII letters, digits, underscore"],
+     title="CLM pack, reopen, extract preserves every track's audio data and format",
+     level_text=("Round-trip property testing over generated WAV sets with independent CLM/WAV builders and strict parsers, including negative inputs, under ASan/UBSan; exploration."),
+     technique="round-trip + differential property-based testing against independent RIFF/CLM encoders and strict decoders (rapidcheck + libFuzzer), layout sweep",
+     design_ref="DESIGN.md section 3, C03")
+
+prop('C17',
+     quick=dict(sweep=True, pbt=(1600, 500, 10), fuzz=(3000, 500, 4)),
+     thorough=dict(sweep=True, pbt=(100000, 700, 11), fuzz=(200000, 700, 4), stage_timeout=3400),
+     floor=dict(quick=1500, thorough=50000), alloc_cap_mb=64,
+     rule=("Directory layouts decoded from a tape inside a digit-named scratch directory: 0..6 loose files, 0..3 VOL and 0..2 CLM archives written by independent encoders, names drawn "
+           "from a 14-name pool chosen so that loose files and members collide in all letter-case variants (a.txt/A.TXT/a.TXT, b.dat/B.dat, trk1/TRK1, ...), archives optionally with "
+           "duplicate member names, optionally with upper-case extensions (not loaded), optional sub-directory, directories named 8.vol and 9.clm. Per layout: archive-level laws on each "
+           "archive (Contains <=> GetIndex does not throw <=> model; index names the first member equal ignoring case and './'; GetIndex(GetName(i))==i when duplicate-free; every "
+           "per-member call refuses indices >= count incl. 2^32-1 and 2^64-1), then 20 GetResourceStream queries (pool names in random case, with/without './', unknown, sub-directory "
+           "paths, archives enabled/disabled) against the model loose-exact-spelling > member of any loaded archive > nothing, FindContainingArchivePath soundness/completeness, rooted "
+           "paths refused, GetArchiveFilenames = .vol files then .clm files, type listings for 8 extensions x archives on/off (loose files by exact dot-extension, then exactly one "
+           "member per new name class, case-blind) and pattern listings for 8 letter patterns (multiset equality). Sweep: each pool name placed loose / in one / in three archives / both, "
+           "6 query tapes each. Non-trivial = a query whose name exists both loose and in an archive, only in an archive (possibly in another case), or is hidden by disabled archive access."),
+     sweep_what="each of 14 pool names x {loose only, one archive, three archives, loose + three archives} x 6 query tapes",
+     assumptions=["Linux case-sensitive directory; archives are picked up by exact '.vol'/'.clm' extension", "which of several archives holding a name wins is not asserted",
+                  "pattern listings match loose files by their path below the (digit-named) resource directory as the implementation documents; patterns are letter-only and unanchored at the start"],
+     title="Name lookup and resource resolution are case-blind, consistent, loose-file-first",
+     level_text=("Model-based testing of lookup/resolution/listing against a layout model over generated directory layouts with reference-encoded archives; exploration."),
+     technique="model-based property testing over generated directory layouts (rapidcheck + libFuzzer tapes) with independent archive encoders",
+     design_ref="DESIGN.md section 3, C17")
